@@ -8,7 +8,7 @@ use crate::{for_both, Ctx, Tier};
 use blsful::*;
 use serde_json::json;
 
-pub const RULE: &str = "n in {2,3,5,16,33} (quick) / every n in 2..=64 (thorough) x 3 schemes x 2 groups: n fresh keys, n distinct messages (lengths from the length classes and the lengths where pk||msg is 255 / 256 / 257 bytes), library aggregate (always through BOTH doors, AggregateSignature::from_signatures and TryFrom<&[Signature]>, which must agree; an acceptance through either counts). Checked: honest list in original order, reversed, rotated and 3 seeded shuffles must verify; single-position perturbations (message bit flip, key replaced, pair dropped, pair added - with a fresh key, and with the identity key (pairing product unchanged) carrying a fresh / the shared message at first, middle, last position -, two messages swapped between different signers) at positions first/middle/last (quick) or every position for n<=16 and 8 sampled positions above (thorough) must fail; duplicate-message multisets (two signers / all signers share one message) with the algebraically valid aggregate must be rejected by Basic and accepted by Aug and PoP; the same (key, message) pair occurring twice (signature counted twice) in three arrangements, and with one of the two copies of the key decoded from its bytes (another in-memory representation of the same point), must be accepted by Aug and PoP, and the aggregate lacking the second signature must be rejected; refusal matrix of from_signatures: 0 and 1 inputs, every mixed-scheme assignment for n<=3 at every position. Every decision is also taken by the reference CoreAggregateVerify (+ Basic's uniqueness rule) over the same bytes; expectation != reference is a harness error. History clusters (1 quick / 6 thorough per group): for three signers and every scheme the honest list (two orders), seven altered lists and the aggregate under each other label, asked in ordered pairs (a,b) as a,b,b,a with the reference's answers. Distinct by (suite, scheme, variant, list bytes, aggregate); non-trivial = all keys decode, aggregate not the identity, the multi-pairing decides.";
+pub const RULE: &str = "n in {2,3,5,16,33,64} (quick) / every n in 2..=64 (thorough) x 3 schemes x 2 groups: n fresh keys, n distinct messages (lengths from the length classes and the lengths where pk||msg is 255 / 256 / 257 bytes), library aggregate (always through BOTH doors, AggregateSignature::from_signatures and TryFrom<&[Signature]>, which must agree; an acceptance through either counts). Checked: honest list in original order, reversed, rotated and 3 seeded shuffles must verify; single-position perturbations (message bit flip, key replaced, pair dropped, pair added - with a fresh key, and with the identity key (pairing product unchanged) carrying a fresh / the shared message at first, middle, last position -, two messages swapped between different signers) at positions first/middle/last (quick) or every position for n<=16 and 8 sampled positions above (thorough) must fail; duplicate-message multisets (two signers / all signers share one message) with the algebraically valid aggregate must be rejected by Basic and accepted by Aug and PoP; the same (key, message) pair occurring twice (signature counted twice) in three arrangements, and with one of the two copies of the key decoded from its bytes (another in-memory representation of the same point), must be accepted by Aug and PoP, and the aggregate lacking the second signature must be rejected; refusal matrix of from_signatures: 0 and 1 inputs, every mixed-scheme assignment for n<=3 at every position. Every decision is also taken by the reference CoreAggregateVerify (+ Basic's uniqueness rule) over the same bytes; expectation != reference is a harness error. History clusters (1 quick / 6 thorough per group): for three signers and every scheme the honest list (two orders), seven altered lists and the aggregate under each other label, asked in ordered pairs (a,b) as a,b,b,a with the reference's answers. Distinct by (suite, scheme, variant, list bytes, aggregate); non-trivial = all keys decode, aggregate not the identity, the multi-pairing decides.";
 
 pub fn run(ctx: &mut Ctx) {
     for_both!(run_suite, ctx);
@@ -17,7 +17,7 @@ pub fn run(ctx: &mut Ctx) {
 
 fn sizes(t: Tier) -> Vec<usize> {
     match t {
-        Tier::Quick => vec![2, 3, 5, 16, 33],
+        Tier::Quick => vec![2, 3, 5, 16, 33, 64],
         Tier::Thorough => (2..=64).collect(),
     }
 }
